@@ -311,15 +311,9 @@ theorem balance_eq_storeTruth (s : Store) (hinv : Inv s) (now : Nat) (mat m sy :
     unfold unspentInfos
     rw [List.filterMap_map]
     rfl
-  have hg1z : ∀ c, nz c = false → g1 s now c = 0 := by
-    intro c hc
-    unfold nz at hc
-    have : c.val.amount = 0 := by simpa using hc
-    unfold g1; split <;> simp [this]
   have hA : ((s.unspent.filterMap fun e => creditInfo s ⟨e.1.hash, e.2, e.1.index⟩).map (g1 s now)).sum =
       ((minedUnspent s).map (g1 s now)).sum := by
-    rw [hU, ← sum_filter_zero nz (g1 s now) hg1z, perm_map_sum (g1 s now) hinv.index,
-      sum_filter_zero nz (g1 s now) hg1z]
+    rw [hU, perm_map_sum (g1 s now) hinv.index]
   have hB : ((s.blocks.reverse.takeWhile fun p => !decide ((p.1 : Int) < sy - (if mat > m then mat else m))).map
       (S2 s now m sy mat)).sum = ((minedUnspent s).map (g2 s now m sy mat)).sum := by
     rw [sum_window s.blocks (S2 s now m sy mat) _ hinv.sorted]
